@@ -23,6 +23,7 @@ import (
 	"runtime/debug"
 	"sort"
 	"strings"
+	"sync/atomic"
 	"testing"
 	"time"
 
@@ -42,6 +43,31 @@ import (
 )
 
 func TestVerifC10(t *testing.T) { vlib.Run("C10", vc10Run) }
+
+// vc10Progress counts requests reaching the DAG service (see vc10World.do).
+var vc10Progress atomic.Int64
+
+type vc10CountingDAG struct{ ipld.DAGService }
+
+func (c vc10CountingDAG) Get(ctx context.Context, k cid.Cid) (ipld.Node, error) {
+	vc10Progress.Add(1)
+	return c.DAGService.Get(ctx, k)
+}
+
+func (c vc10CountingDAG) GetMany(ctx context.Context, ks []cid.Cid) <-chan *ipld.NodeOption {
+	vc10Progress.Add(1)
+	return c.DAGService.GetMany(ctx, ks)
+}
+
+func (c vc10CountingDAG) Add(ctx context.Context, nd ipld.Node) error {
+	vc10Progress.Add(1)
+	return c.DAGService.Add(ctx, nd)
+}
+
+func (c vc10CountingDAG) AddMany(ctx context.Context, nds []ipld.Node) error {
+	vc10Progress.Add(1)
+	return c.DAGService.AddMany(ctx, nds)
+}
 
 // ---------------------------------------------------------------- strata
 
@@ -186,14 +212,21 @@ type vc10Obs struct {
 	hung  bool
 }
 
-// do runs one modifier call under recover and a hang watchdog.
+// do runs one modifier call under recover and a progress-based hang monitor:
+// the call is declared hung only when it has not returned AND the DAG service
+// saw no request for 12 s (operations on these <= 8 KiB files normally take well
+// under a millisecond; a slow but live operation keeps issuing block requests, a
+// spinning walker does not). vlib.Guard then attaches two goroutine dumps taken
+// 2 s apart and aborts the batch.
 func (w *vc10World) do(op string, fn func(o *vc10Obs)) vc10Obs {
 	o := new(vc10Obs)
 	where := op
 	if t := w.trig(); t != "" {
 		where = t // hang class: hang/<fired trigger patterns>
 	}
-	ok := vlib.Guard(w.k, where, 10*time.Second, func() {
+	done := make(chan struct{})
+	go func() {
+		defer close(done)
 		defer func() {
 			if r := recover(); r != nil {
 				o.pan = r
@@ -201,9 +234,28 @@ func (w *vc10World) do(op string, fn func(o *vc10Obs)) vc10Obs {
 			}
 		}()
 		fn(o)
-	})
-	if !ok {
-		return vc10Obs{hung: true}
+	}()
+	tick := time.NewTicker(time.Second)
+	defer tick.Stop()
+	last, idle := vc10Progress.Load(), 0
+wait:
+	for {
+		select {
+		case <-done:
+			break wait
+		case <-tick.C:
+			if p := vc10Progress.Load(); p != last {
+				last, idle = p, 0
+				w.k.C.Count("slow_op_polls_with_progress", 1)
+				continue
+			}
+			if idle++; idle >= 12 {
+				if !vlib.Guard(w.k, where, time.Second, func() { <-done }) {
+					return vc10Obs{hung: true}
+				}
+				break wait
+			}
+		}
 	}
 	if o.pan != nil {
 		site := vlib.PanicSite(o.stack)
@@ -274,7 +326,7 @@ func vc10History(k *vlib.Case, g vc10Gen) {
 	r := k.R
 	ctx, cancel := context.WithCancel(context.Background())
 	defer cancel()
-	dserv := mdagmock.Mock()
+	var dserv ipld.DAGService = vc10CountingDAG{mdagmock.Mock()}
 
 	// ---- modifier configuration (drawn first: native initial files are built
 	// with the modifier's own width)
